@@ -91,3 +91,14 @@ C16_ORDER_AFTER = {
 C08_RET_EXEMPT = {
     "widget.widget.WidgetProto.keypress": "typing.Protocol stub without a body",
 }
+
+# FOCUS-FWD: calls that legitimately leave the focus flag out, "<caller>:<call>" -> reason.
+FWD_EXCEPTIONS = {
+    "widget.bar_graph.BarGraph.render:Text(widget_list).render((maxcol,))": "a freshly built Text used as a row painter; Text ignores focus (ignore_focus = True)",
+    "widget.bar_graph.GraphVScale.render:t.render((maxcol,))": "a freshly built Text used as a label painter; Text ignores focus",
+    "widget.progress_bar.ProgressBar.render:Text(self.get_text(), self.text_align, WrapMode.CLIP).render((maxcol,))": "a freshly built Text used as a painter; Text ignores focus",
+    "widget.big_text.BigText.render:self.font.render(ch)": "Font.render(char) is not a widget render: it takes a character and has no focus parameter (resolved only by method name)",
+    "widget.listbox.ListBox.render:widget.render((maxcol,))": "the rows above and below the focus row are drawn unfocused by design; only the focus widget gets the flag",
+    "widget.overlay.Overlay.render:self.bottom_w.render(real_size)": "the bottom widget of an Overlay never has the focus (the top widget has it) - documented behaviour",
+    "widget.scrollable.ScrollBar.mouse_event:ow.get_scrollpos(ow_size)": "reached only under hasattr(ow, 'set_scrollpos'), i.e. for a Scrollable, whose get_scrollpos() ignores both arguments",
+}
